@@ -151,12 +151,6 @@ func runDead(t *testing.T, ci interface{}, trace bool) *common.Outcome {
 			supersede(kind, time.Now())
 			hist = append(hist, &dlEntry{kind: kind, at: at, setAt: time.Now()})
 		}
-		heldNow := func() int64 {
-			if cs.Local == nil {
-				return 0
-			}
-			return cs.BufBytes - cs.Local.BytesIn
-		}
 		for _, op := range c.Ops {
 			if closedSeen {
 				break
@@ -192,14 +186,28 @@ func runDead(t *testing.T, ci interface{}, trace bool) *common.Outcome {
 				if op.Op == "writebig" {
 					n = c.K.SndCap + 100
 				}
+				// A write that leaves the backlog empty clears the write deadline. Whether it did
+				// is decided by what the call itself did under the connection mutex: it wrote to
+				// the socket (so nothing was queued before it) and the kernel took every byte.
+				// Looking at the queue after the call returned would also see what the poller
+				// flushed in between, which clears nothing.
+				me, ownCalls, ownTaken := simrt.CurID(), 0, 0
+				w.K.OnWrote = func(fd, asked, taken int) {
+					if simrt.CurID() == me {
+						ownCalls++
+						if taken > 0 {
+							ownTaken += taken
+						}
+					}
+				}
 				wn, err := nc.Write(make([]byte, n))
+				w.K.OnWrote = nil
 				now := time.Now()
 				if err != nil {
 					otherCause = true
 				} else {
 					cs.BufBytes += int64(wn)
-					if heldNow() == 0 {
-						// a write that returns with an empty backlog clears the write deadline
+					if ownCalls > 0 && ownTaken == n {
 						supersede('w', now)
 					}
 				}
